@@ -98,6 +98,9 @@ def build_proofs(pid, clean=False):
     res["obligations"] = len(names)
     if clean:
         sh(f"rm -f Props/{pid}.vo Props/{pid}.glob", cwd=COQ)
+    # trace checkers (Run/*.vo) are needed by the correspondence runs; keep going past other people's breakage
+    runs = " ".join("Run/" + f[:-2] + ".vo" for f in sorted(os.listdir(os.path.join(COQ, "Run"))) if f.endswith(".v"))
+    sh(f"timeout 3000 make -k -j16 {runs} >/dev/null 2>&1", cwd=COQ)
     rc, out, err = sh(f"timeout 3000 make -j16 Props/{pid}.vo 2>&1", cwd=COQ)
     if rc != 0:
         res["error"] = (out + err)[-3000:]
